@@ -241,8 +241,11 @@ impl<T: Types> FlushWorker<T> {
         }
 
         while files.len() > 1 {
-            let f = files.remove(0);
-            f.f.sync_data()?;
+            // Forget a closed file only after its sync has succeeded;
+            // otherwise a later flush would report success for data that
+            // was never durably synced.
+            files[0].f.sync_data()?;
+            files.remove(0);
         }
 
         // The second last and before are all closed,
